@@ -60,6 +60,12 @@ package base
 //@   ensures[others] forall e Int :: e != event || !validEvent(event) ==> mb.counter[e] == old(mb.counter[e])
 //@   ensures[min-rt] mb.minRt == (event == base.MetricEventRt && count < old(mb.minRt) ? count : old(mb.minRt))
 //@   modifies mb.counter, mb.minRt
+// C09 (thread-modular): whatever other recorders do to this bucket meanwhile, this call changes the counter of its
+// own event by exactly the recorded amount, in one atomic step, and writes no other counter
+//@   concurrent C09
+//@   shared mb.counter, mb.minRt
+//@   onwrite[only-own-counter-by-exactly-the-recorded-amount]{C09} mb.counter: validEvent(event) && idx == event && (small(prev) ==> new == prev + count)
+//@   onwrite[min-rt-is-a-recorded-rt]{C09} mb.minRt: event == base.MetricEventRt && new == count
 
 //@ func (mb *MetricBucket) Get(event) r
 //@   props C08, C09, C02
@@ -70,8 +76,8 @@ package base
 //@ func (mb *MetricBucket) reset()
 //@   props C08, C09
 //@   requires mb != nil
-//@   ensures[zeroed] forall e Int :: validEvent(e) ==> mb.counter[e] == 0
-//@   ensures[defaults] mb.minRt == base.DefaultStatisticMaxRt && mb.maxConcurrency == 0
+//@   ensures[zeroed]{C02,C08,C09} forall e Int :: validEvent(e) ==> mb.counter[e] == 0
+//@   ensures[defaults]{C02,C08,C09} mb.minRt == base.DefaultStatisticMaxRt && mb.maxConcurrency == 0
 //@   modifies mb.counter, mb.minRt, mb.maxConcurrency
 //@   loop 1:
 //@     invariant[prefix-zero] 0 <= i && i <= base.MetricEventTotal && (forall e Int :: 0 <= e && e < i ==> mb.counter[e] == 0)
@@ -246,25 +252,37 @@ package base
 //@   ensures forall j Int :: aa.data[j] == ((ok && j == idx) ? update : old(aa.data[j]))
 //@   modifies elems(aa.data)
 
-// unsafe CAS on the embedded sync.Mutex word: may or may not acquire, no effect on contract-visible state
+// unsafe CAS on the embedded sync.Mutex word: may or may not acquire; on success this thread holds the lock
 //@ func (tl *mutex) TryLock() r
 //@   assumed
-//@   modifies nothing
+//@   ensures wlockcount(tl.Mutex) == old(wlockcount(tl.Mutex)) + (r ? 1 : 0)
+//@   modifies wlockcount(tl.Mutex)
 
 //@ iface BucketGenerator.NewEmptyBucket() r
 //@   ensures typeis(r, "*core/stat/base.MetricBucket") && dynptr(r) != 0 && fresh(dynptr(r))
 //@   ensures forall e Int :: validEvent(e) ==> cast(dynptr(r), MetricBucket).counter[e] == 0
 //@   modifies nothing
 
+// C09: recycling a bucket is only allowed while holding the update lock of the array the generator belongs to
+//@ spec func ownsArray(bg, la) = typeis(bg, "*core/stat/base.BucketLeapArray") ==> ref(cast(dynptr(bg), BucketLeapArray).data) == ref(la)
 //@ iface BucketGenerator.ResetBucketTo(bucket, startTime) r
 //@   requires isBucket(bucket)
+//@   requires[under-the-update-lock]{C09} typeis(this, "*core/stat/base.BucketLeapArray") ==> wlockcount(cast(dynptr(this), BucketLeapArray).data.updateLock.Mutex) > 0
 //@   ensures r == bucket && bucket.BucketStart == startTime && isBucket(bucket) && stored(bucket.Value) == old(stored(bucket.Value))
 //@   ensures forall e Int :: validEvent(e) ==> bucketOf(bucket).counter[e] == 0
 //@   modifies bucket.BucketStart, fields(bucketOf(bucket))
 
+// C09 (concurrent part, thread-modular): other recorders and readers may run at any point. Under the property's
+// premise (no recorder is stalled for longer than one bucket length) nobody else writes the counters of the bucket
+// that is being recycled, so only its start word is shared here. The recycled bucket must not become visible under
+// its new start while it still holds the expired window's data.
 //@ func (bla *BucketLeapArray) ResetBucketTo(bw, startTime) r
 //@   props C08, C09
 //@   requires isBucket(bw)
+//@   concurrent C09
+//@   shared bw.BucketStart
+//@   onwrite[expired-data-zeroed-before-new-start-is-published]{C09} bw.BucketStart: forall e Int :: validEvent(e) ==> bucketOf(bw).counter[e] == 0
+//@   replay leaparray_stale_window for expired-data-zeroed
 //@   ensures[start] r == bw && bw.BucketStart == startTime && stored(bw.Value) == old(stored(bw.Value))
 //@   ensures[zeroed] forall e Int :: validEvent(e) ==> bucketOf(bw).counter[e] == 0
 //@   ensures[defaults] bucketOf(bw).minRt == base.DefaultStatisticMaxRt && bucketOf(bw).maxConcurrency == 0
@@ -276,6 +294,7 @@ package base
 //@ func (la *LeapArray) currentBucketOfTime(now, bg) (w, err)
 //@   props C08, C09, C02
 //@   requires geomOK(la) && slotBucketsOK(la) && now < 4611686018427387904
+//@   requires[generator-owns-array]{C09} ownsArray(bg, la)
 //@   let idx = slotOf(now, la.bucketLengthInMs, la.array.length)
 //@   let start = startOf(now, la.bucketLengthInMs)
 //@   let cur = la.array.data[idx]
@@ -291,6 +310,7 @@ package base
 //@   modifies elems(la.array.data), cur.BucketStart, fields(bucketOf(cur))
 //@   loop 1:
 //@     invariant[untouched] frame()
+//@     invariant[update-lock-released] lockframe()
 
 // two times that share a slot but not a bucket are at least one whole array interval apart:
 // a refresh only ever destroys data that is older than the array can retain
